@@ -8,7 +8,7 @@ every trailing incomplete frame `p` (strict prefix of the encoding of an admissi
 every list of chunks whose concatenation is `encodeAll ms ++ p` (= every way of splitting the byte stream
 between reads, down to one byte — or zero bytes — per read).
 -/
-import SwimVerif.Proofs.FrameCodecs
+import SwimVerif.Proofs.FrameCommand
 
 set_option linter.unusedSimpArgs false
 namespace SwimVerif.Frames
@@ -107,14 +107,13 @@ theorem C10_store_response_map_split_insensitive :
     SplitInsensitive (storeResponse rawMapOp) (encStoreResp encMapOp) okMapOp :=
   C10_generic_split_insensitive (storeResponse_lawful rawMapOp_lawful)
 
-/-- `DownlinkOperationDecoder`, for bodies whose announced size the allocator can still reserve (it
-reserves `LEN_SIZE + len` as soon as the length is known). -/
+/-- `DownlinkOperationDecoder`. -/
 theorem C10_downlink_operation_split_insensitive :
-    SplitInsensitive (Dec.ofParser downlinkOp) encWlb okDlBody :=
+    SplitInsensitive (Dec.ofParser downlinkOp) encWlb okBytes :=
   C10_generic_split_insensitive (Lawful.ofParser downlinkOp_lawful)
 
 /-- Routed request messages: `RawRequestMessageDecoder` against `RawRequestMessageEncoder`, for 16-byte origins,
-valid UTF-8 node / lane names and frames below the size the allocator refuses to reserve up front. -/
+valid UTF-8 node / lane names and frame sizes that fit the 61-bit length field. -/
 theorem C10_raw_request_split_insensitive : SplitInsensitive (Dec.ofParser rawRequest) encReqMsg okReqMsg :=
   C10_generic_split_insensitive (Lawful.ofParser rawRequest_lawful)
 
@@ -122,6 +121,11 @@ theorem C10_raw_request_split_insensitive : SplitInsensitive (Dec.ofParser rawRe
 has the wire form of `Unlinked(None)` and is excluded by `okRespMsg`. -/
 theorem C10_raw_response_split_insensitive : SplitInsensitive (Dec.ofParser rawResponse) encRespMsg okRespMsg :=
   C10_generic_split_insensitive (Lawful.ofParser rawResponse_lawful)
+
+/-- Ad hoc command messages: `RawCommandMessageDecoder` against `RawCommandMessageEncoder` — `Register` (since
+5ec6b4e), `Addressed`, `Registered`, with or without host; ids below 2^16, strings valid UTF-8. -/
+theorem C10_command_split_insensitive : SplitInsensitive rawCommand encCmd okCmd :=
+  C10_generic_split_insensitive rawCommand_lawful
 
 /-! ### corrupt tags and lengths -/
 
@@ -144,71 +148,78 @@ theorem C10_map_operation_unknown_tag_is_error (n t : Nat) (rest : List Nat)
   simp [rawMapOp, mapLenSize, mapTagSize, h.1, h.2.1, h.2.2]
   omega
 
-/-- The full no-panic clause: no input makes a decoder panic. **False of the current code** (F4). -/
-def C10_corrupt_is_error : Prop :=
-  (∀ buf, (wlb buf).2 ≠ .panic) ∧ (∀ buf, (rawMapOp buf).2 ≠ .panic) ∧ (∀ buf, (downlinkOp buf).2 ≠ .panic)
+/-- **No corrupt input makes a decoder panic or abort** (was false before cd6bc7e / 442681d: F4, F104): for each
+of the 16 modelled decoders, every byte stream, however it is split into reads, ends every read in `more` or `err`
+(or, vacuously for these decoders, `hang`) — never `panic`, never `abort`. -/
+def C10_corrupt_is_error_stmt : Prop :=
+  (∀ c, (run (Dec.ofParser wlb) c).status ≠ .panic ∧ (run (Dec.ofParser wlb) c).status ≠ .abort) ∧
+  (∀ c, (run (Dec.ofParser rawMapOp) c).status ≠ .panic ∧ (run (Dec.ofParser rawMapOp) c).status ≠ .abort) ∧
+  (∀ c, (run (Dec.ofParser rawMapMsg) c).status ≠ .panic ∧ (run (Dec.ofParser rawMapMsg) c).status ≠ .abort) ∧
+  (∀ c, (run (laneRequest wlb) c).status ≠ .panic ∧ (run (laneRequest wlb) c).status ≠ .abort) ∧
+  (∀ c, (run (laneRequest rawMapMsg) c).status ≠ .panic ∧ (run (laneRequest rawMapMsg) c).status ≠ .abort) ∧
+  (∀ c, (run (laneResponse wlb) c).status ≠ .panic ∧ (run (laneResponse wlb) c).status ≠ .abort) ∧
+  (∀ c, (run (laneResponse rawMapOp) c).status ≠ .panic ∧ (run (laneResponse rawMapOp) c).status ≠ .abort) ∧
+  (∀ c, (run (storeInit wlb) c).status ≠ .panic ∧ (run (storeInit wlb) c).status ≠ .abort) ∧
+  (∀ c, (run (storeInit rawMapMsg) c).status ≠ .panic ∧ (run (storeInit rawMapMsg) c).status ≠ .abort) ∧
+  (∀ c, (run (Dec.ofParser storeInitialized) c).status ≠ .panic ∧
+    (run (Dec.ofParser storeInitialized) c).status ≠ .abort) ∧
+  (∀ c, (run (storeResponse wlb) c).status ≠ .panic ∧ (run (storeResponse wlb) c).status ≠ .abort) ∧
+  (∀ c, (run (storeResponse rawMapOp) c).status ≠ .panic ∧ (run (storeResponse rawMapOp) c).status ≠ .abort) ∧
+  (∀ c, (run (Dec.ofParser downlinkOp) c).status ≠ .panic ∧ (run (Dec.ofParser downlinkOp) c).status ≠ .abort) ∧
+  (∀ c, (run (Dec.ofParser rawRequest) c).status ≠ .panic ∧ (run (Dec.ofParser rawRequest) c).status ≠ .abort) ∧
+  (∀ c, (run (Dec.ofParser rawResponse) c).status ≠ .panic ∧ (run (Dec.ofParser rawResponse) c).status ≠ .abort) ∧
+  (∀ c, (run rawCommand c).status ≠ .panic ∧ (run rawCommand c).status ≠ .abort)
 
-/-- F4 witnesses on the model (each was run against the real decoder, see corpus/C10): a length of
-`u64::MAX - 3`, and an `UPDATE` of total length 9 whose key length is `u64::MAX`. -/
-theorem C10_corrupt_is_error_fails : ¬ C10_corrupt_is_error := by
-  intro h
-  exact h.1 [255, 255, 255, 255, 255, 255, 255, 252] (by decide)
+theorem C10_corrupt_is_error : C10_corrupt_is_error_stmt :=
+  ⟨run_safe (Dec.ofParser_safe wlb_safe), run_safe (Dec.ofParser_safe rawMapOp_safe),
+   run_safe (Dec.ofParser_safe rawMapMsg_safe), run_safe (laneRequest_safe wlb_safe),
+   run_safe (laneRequest_safe rawMapMsg_safe), run_safe (laneResponse_safe wlb_safe),
+   run_safe (laneResponse_safe rawMapOp_safe), run_safe (storeInit_safe wlb_safe),
+   run_safe (storeInit_safe rawMapMsg_safe), run_safe (Dec.ofParser_safe storeInitialized_safe),
+   run_safe (storeResponse_safe wlb_safe), run_safe (storeResponse_safe rawMapOp_safe),
+   run_safe (Dec.ofParser_safe downlinkOp_safe), run_safe (Dec.ofParser_safe rawRequest_safe),
+   run_safe (Dec.ofParser_safe rawResponse_safe), run_safe rawCommand_safe⟩
 
-theorem C10_map_operation_key_len_panics :
-    (rawMapOp ([0, 0, 0, 0, 0, 0, 0, 9, 0] ++ [255, 255, 255, 255, 255, 255, 255, 255])).2 = .panic := by
+/-- The former F4 / F104 witnesses are errors now (resp. a plain wait for the announced bytes). -/
+theorem C10_overflowing_lengths_are_errors :
+    (wlb [255, 255, 255, 255, 255, 255, 255, 252]).2 = .err ∧
+    (rawMapOp ([0, 0, 0, 0, 0, 0, 0, 9, 0] ++ [255, 255, 255, 255, 255, 255, 255, 255])).2 = .err ∧
+    (rawMapOp [255, 255, 255, 255, 255, 255, 255, 252, 0, 0, 0, 0, 0, 0, 0, 0, 1]).2 = .err ∧
+    (downlinkOp [255, 255, 255, 255, 255, 255, 255, 252]).2 = .err ∧
+    (downlinkOp [0, 4, 0, 0, 0, 0, 0, 0]).2 = .more := by
   decide
 
-/-- What does hold: `WithLengthBytesCodec` panics exactly when `LEN_SIZE + len` overflows, and
-`RawMapOperationDecoder` panics only when one of its two additions overflows. -/
-theorem C10_wlb_panic_iff_partial (buf : List Nat) :
-    (wlb buf).2 = .panic ↔ (8 ≤ buf.length ∧ M64 ≤ 8 + rd (buf.take 8)) := by
-  by_cases h1 : buf.length < 8
-  · simp [wlb, wlbLenSize, h1]; omega
-  · by_cases h2 : M64 ≤ 8 + rd (buf.take 8)
-    · simp [wlb, wlbLenSize, h1, h2]; omega
-    · by_cases h3 : 8 + rd (buf.take 8) ≤ buf.length
-      · simp [wlb, wlbLenSize, h1, h2, h3]
-      · simp [wlb, wlbLenSize, h1, h2, h3]
+/-- **Unknown kinds and stray lengths of routed requests are errors** (was F17): on a frame with a well-formed
+address, a kind other than link/sync/unlink/command, or a body-less kind with a non-zero length, is `Err`, and the
+whole frame (its `len` body bytes included) is consumed. -/
+theorem C10_raw_request_bad_kind_is_error (origin node lane rest : Bytes) (tag len : Nat)
+    (A : OkAddr origin node lane) (hlen : len < OPSH) (htag : tag < 8) (hr : len ≤ rest.length)
+    (hbad : (tag ≠ msgLink ∧ tag ≠ msgSync ∧ tag ≠ msgUnlink ∧ tag ≠ msgCommand) ∨ (tag ≠ msgCommand ∧ len ≠ 0)) :
+    rawRequest (origin ++ (be 4 node.length ++ (be 4 lane.length ++ (be 8 (len + tag * OPSH) ++
+        (node ++ (lane ++ rest)))))) = (rest.drop len, .err) := by
+  rw [rawRequest_frame origin node lane rest tag len A hlen htag hr]
+  rcases hbad with ⟨h1, h2, h3, h4⟩ | ⟨h4, h5⟩ <;> simp [*]
 
-theorem C10_map_operation_panic_only_overflow_partial (buf : List Nat) (h : (rawMapOp buf).2 = .panic) :
-    M64 ≤ 8 + rd (buf.take 8) ∨
-      M64 ≤ rd ((((buf.drop 8).take (rd (buf.take 8))).drop 1).take 8) + 8 + 1 := by
-  by_cases a : M64 ≤ 8 + rd (buf.take 8)
-  · left; exact a
-  · by_cases b : M64 ≤ rd ((((buf.drop 8).take (rd (buf.take 8))).drop 1).take 8) + 8 + 1
-    · right; exact b
-    · exfalso
-      revert h
-      unfold rawMapOp rawMapOpUpdate rawMapOpRemove rawMapOpUpdateFrame
-      repeat' split
-      all_goals simp_all [mapLenSize, mapTagSize]
-      all_goals omega
+theorem C10_raw_response_bad_kind_is_error (origin node lane rest : Bytes) (tag len : Nat)
+    (A : OkAddr origin node lane) (hlen : len < OPSH) (htag : tag < 8) (hr : len ≤ rest.length)
+    (hbad : (tag ≠ msgLinked ∧ tag ≠ msgSynced ∧ tag ≠ msgUnlinked ∧ tag ≠ msgEvent) ∨
+      (tag ≠ msgUnlinked ∧ tag ≠ msgEvent ∧ len ≠ 0)) :
+    rawResponse (origin ++ (be 4 node.length ++ (be 4 lane.length ++ (be 8 (len + tag * OPSH) ++
+        (node ++ (lane ++ rest)))))) = (rest.drop len, .err) := by
+  rw [rawResponse_frame origin node lane rest tag len A hlen htag hr]
+  rcases hbad with ⟨h1, h2, h3, h4⟩ | ⟨h3, h4, h5⟩ <;> simp [*]
 
-/-- F17 on the model: a request frame whose 3-bit kind is `UNLINKED` (6) comes out as a command, and a `link`
-with a non-zero length leaves its "body" in the buffer. -/
-theorem C10_request_unknown_tag_fails :
-    (rawRequest (be 16 7 ++ be 4 1 ++ be 4 1 ++ be 8 (3 + 6 * OPSH) ++ [110, 108] ++ [1, 2, 3])).2
-      = .item ⟨be 16 7, [110], [108], .command [1, 2, 3]⟩ ∧
-    rawRequest (be 16 7 ++ be 4 1 ++ be 4 1 ++ be 8 (2 + 0 * OPSH) ++ [110, 108] ++ [170, 187])
-      = ([170, 187], .item ⟨be 16 7, [110], [108], .link⟩) := by
+/-- The former F17 witnesses: kind 6 on a request, a `link` announcing two body bytes. -/
+theorem C10_request_unknown_tag_regression :
+    rawRequest (be 16 7 ++ be 4 1 ++ be 4 1 ++ be 8 (3 + 6 * OPSH) ++ [110, 108] ++ [1, 2, 3]) = ([], .err) ∧
+    rawRequest (be 16 7 ++ be 4 1 ++ be 4 1 ++ be 8 (2 + 0 * OPSH) ++ [110, 108] ++ [170, 187]) = ([], .err) := by
   decide
 
-/-- F101 on the model: a `Register` frame fed in two reads is never delivered (fed in one read it is). -/
-theorem C10_command_register_split_fails :
-    (run rawCommand [encCmd (.register ⟨none, [110], [108]⟩ 7)]).items = [.register ⟨none, [110], [108]⟩ 7] ∧
-    (run rawCommand [[1], (encCmd (.register ⟨none, [110], [108]⟩ 7)).drop 1]).items = [] := by
+/-- The former F101 witness: a `Register` frame fed in two reads is delivered (fixed by 5ec6b4e). -/
+theorem C10_command_register_split_regression :
+    (run rawCommand [[1], (encCmd (.register ⟨none, [110], [108]⟩ 7)).drop 1]).items
+      = [.register ⟨none, [110], [108]⟩ 7] := by
   decide
-
-/-! ### statements not proved (yet) -/
-
-/-- Ad hoc command messages other than `Register` (for `Register` see `C10_command_register_split_fails`). -/
-def C10_command_nonregister_split_insensitive_open : Prop :=
-  SplitInsensitive rawCommand encCmd fun m =>
-    match m with
-    | .register _ _ => False
-    | .addressed a b _ => okBytes b ∧ a.node.length < SZ ∧ a.lane.length < SZ ∧ utf8Valid a.node = true ∧
-        utf8Valid a.lane = true ∧ (∀ h, a.host = some h → h.length < SZ ∧ utf8Valid h = true)
-    | .registered t b _ => okBytes b ∧ t < 65536
 
 /-! ### side conditions on the generated table (re-checked against the sources on every run) -/
 
@@ -230,8 +241,8 @@ theorem C10_tag_tables :
     rawMapOpArms = ["UPDATE", "REMOVE", "CLEAR"] ∧
     mapMessageArms = ["TAKE", "DROP", "_"] ∧
     storeInitArms = ["COMMAND", "INIT_DONE"] ∧
-    rawRequestArms = ["LINK", "SYNC", "UNLINK", "_"] ∧
-    rawResponseArms = ["LINKED", "SYNCED", "UNLINKED", "_"] ∧
+    rawRequestArms = ["LINK?", "SYNC?", "UNLINK?", "COMMAND", "_"] ∧
+    rawResponseArms = ["LINKED?", "SYNCED?", "UNLINKED", "EVENT", "_"] ∧
     dlNotificationArms = ["LINKED", "SYNCED", "EVENT", "UNLINKED"] ∧
     [tagLen, idLen, tagSize, lenSize, mapLenSize, mapTagSize, wlbLenSize] = [1, 16, 1, 8, 8, 1, 8] ∧
     [opShift, headerInitLen] = [61, 32] ∧
@@ -264,6 +275,13 @@ example : (run (Dec.ofParser rawResponse)
       [(encRespMsg ⟨be 16 7, [110], [108], .event [5]⟩).take 33, (encRespMsg ⟨be 16 7, [110], [108], .event [5]⟩).drop 33]).items
     = [⟨be 16 7, [110], [108], .event [5]⟩] := by decide
 
-example : okDlBody [1, 2, 3] := by simp [okDlBody]
+example : okBytes [1, 2, 3] := by simp [okBytes]
+
+example : okCmd (.register ⟨some [104], [110], [108]⟩ 7) :=
+  ⟨⟨by decide, by decide, by decide, by decide, by intro h e; cases e; exact ⟨by decide, by decide⟩⟩, by decide⟩
+
+/-- a `Register` with host, fed one byte at a time -/
+example : (run rawCommand ((encCmd (.register ⟨some [104], [110], [108]⟩ 7)).map fun b => [b])).items
+    = [.register ⟨some [104], [110], [108]⟩ 7] := by decide
 
 end SwimVerif.Frames
